@@ -275,10 +275,14 @@ def _profiles(IM, origin, rmax, order, odd, weights, verbose):
         print('Extracting radial profiles...')
     prm = [IM.shape, origin, rmax, order, odd]
     if _prm != prm or _weights is not weights:
+        dst = Distributions(origin=origin, rmax=rmax, order=order, odd=odd,
+                            weights=weights, use_sin=False, method='linear')
+        c = dst(IM).cos()
+        # (cached only now: both lines above can raise for wrong parameters,
+        #  and a half-initialized object must not be left in the cache)
         _prm = prm
         _weights = weights
-        _dst = Distributions(origin=origin, rmax=rmax, order=order, odd=odd,
-                             weights=weights, use_sin=False, method='linear')
+        _dst = dst
         if verbose:
             print('(new Distributions object created)')
         # reset image basis
@@ -286,8 +290,7 @@ def _profiles(IM, origin, rmax, order, odd, weights, verbose):
     else:
         if verbose:
             print('(reusing cached Distributions object)')
-
-    c = _dst(IM).cos()
+        c = _dst(IM).cos()
 
     if not np.array_equal(_dst.valid, old_valid):
         # reset transforms
@@ -599,11 +602,12 @@ def get_bs_cached(Rmax, order=2, odd=False, direction='inverse', reg=None,
 
     prm = [Rmax, order, odd]
     if _bs is None or _bs_prm != prm:
-        _bs_prm = prm
         # try to load basis set and maybe inverse-transform matrices
+        # (might raise, so the parameters are remembered after it)
         _bs, _tri_full = _load_bs(basis_dir, Rmax, order, odd,
                                   direction == 'inverse' and reg is None,
                                   verbose)
+        _bs_prm = prm
         if _bs is None:
             if verbose:
                 print('Computing basis set...')
@@ -647,7 +651,7 @@ def get_bs_cached(Rmax, order=2, odd=False, direction='inverse', reg=None,
         return _trf
     else:  # 'inverse'
         if _tri_prm != [reg]:
-            _tri_prm = [reg]
+            _tri_prm = None  # (set at the end: branches below might raise)
             if reg is None:
                 # calculate full inverse matrices, if not yet
                 if _tri_full is None:
@@ -731,6 +735,7 @@ def get_bs_cached(Rmax, order=2, odd=False, direction='inverse', reg=None,
             else:
                 raise ValueError('Wrong regularization type "{}"'.
                                  format(reg[0]))
+            _tri_prm = [reg]
         if new_bs:
             _save_bs(basis_dir, Rmax, order, odd, _bs, _tri_full, verbose)
         return _tri
